@@ -10,6 +10,7 @@ pub mod c11;
 pub mod c12;
 pub mod c13;
 pub mod c14;
+pub mod c15;
 pub mod c16;
 pub mod lincheck;
 pub mod macro_table;
@@ -30,6 +31,7 @@ pub fn dispatch(id: &str, args: &RunArgs) -> i32 {
         "C12" => run(&c12::C12, args),
         "C13" => run(&c13::C13, args),
         "C14" => run(&c14::C14, args),
+        "C15" => run(&c15::C15, args),
         "C16" => run(&c16::C16, args),
         "C03" => run(&c03::C03, args),
         "C04" => run(&c04::C04, args),
